@@ -67,6 +67,17 @@ def compare_case(run, r, prop, fields=CMP, types=("seqagg", "sequrl"), flags=Tru
                     diff = ["has_opaque_path"]
                 if len(fl) >= 5 and (fl[4] != y.get("hasf") or fl[5] != y.get("hasq")):
                     diff = ["has_hash/has_search"]
+            if diff and i >= 1:
+                # the listed finding "same cap through the setters": a host setter (or set_href) given a value longer than the cap that
+                # needs domain-to-ASCII processing is refused (the object stays as it was) where the Standard accepts it
+                ops = r["case"][2] or []
+                if i - 1 < len(ops) and ops[i - 1][0] in ("set_host", "set_hostname", "set_href") and \
+                        urlpreds.idna_cap_class((b"", None, [ops[i - 1]], None)) and \
+                        all(x.get(g) == a_steps[i - 1].get(g) for g in fields):
+                    run.violation("known:idna-input-cap-16384", f"{T[3:]} step {i}: {ops[i - 1][0]} refuses a host longer than 16384 bytes that "
+                                  f"needs domain-to-ASCII processing; the Standard has no such bound", lines=[r[T + "_line"][:300]])
+                    ok = False
+                    break
             if diff:
                 f = diff[0]
                 run.violation(f"{prop}:field:{f}:{r[T + '_line']}",
